@@ -943,3 +943,79 @@ def output_errors_probe(construction, oe, errors):
         return got, want
     finally:
         shutil.rmtree(base, ignore_errors=True)
+
+
+# ------------------------------------------------------------------ C12: template frames of a runtime exception, on every construction path
+_TB_POS = {
+    # position: (template lines; 1-based index of the raising line)
+    "expression": (["a", "${boom()}", "b"], 2),
+    "code-block": (["<%", "    x = 1", "    boom()", "%>"], 3),
+    "control-line": (["% if boom():", "x", "% endif"], 1),
+    "def-body": (["<%def name=\"d()\">", "in def ${boom()}", "</%def>", "${d()}"], 2),
+    "call-body": (["<%def name=\"w()\">${caller.body()}</%def>", "<%call expr=\"w()\">", "  ${boom()}", "</%call>"], 3),
+}
+
+
+def traceback_probe(position, source, lead):
+    """render a template that raises at a known line, built through one construction path; returns
+    ((filename-ok, reported line, reported source line), (True, expected line, expected source line))"""
+    import os
+    import shutil
+    import tempfile
+    from mako.template import Template
+    from mako.lookup import TemplateLookup
+    from mako import exceptions
+    lines, k = _TB_POS[position]
+    all_lines = ["filler"] * lead + lines + ["end"]
+    text = "\n".join(all_lines) + "\n"
+    want_line = lead + k
+
+    class Boom(Exception):
+        pass
+
+    def boom():
+        raise Boom()
+    base = os.path.realpath(tempfile.mkdtemp(prefix="c12tb"))
+    try:
+        fn = os.path.join(base, "page.mako")
+        with open(fn, "w") as f:
+            f.write(text)
+        real_mods = os.path.join(base, "modules")
+        link = os.path.join(base, "link")
+        os.symlink(base, link)              # <base>/link -> <base>: every path below can also be spelled through the link
+        name = fn
+        if source == "string":
+            t = Template(text)
+            name = t.uri
+        elif source == "string-with-uri":
+            t = Template(text, uri="/some/uri.html")
+            name = "/some/uri.html"
+        elif source == "file":
+            t = Template(filename=fn)
+        elif source == "lookup":
+            t = TemplateLookup([base]).get_template("page.mako")
+        elif source == "module-file":
+            t = Template(filename=fn, module_directory=real_mods)
+        elif source == "module-file-reload":
+            Template(filename=fn, module_directory=real_mods)
+            t = Template(filename=fn, module_directory=real_mods)
+        elif source == "module-directory-through-symlink":
+            t = Template(filename=fn, module_directory=os.path.join(link, "modules"))
+        elif source == "lookup-through-symlink":
+            t = TemplateLookup([link], module_directory=os.path.join(link, "modules")).get_template("page.mako")
+            name = os.path.join(link, "page.mako")
+        else:
+            raise ValueError(source)
+        try:
+            t.render(boom=boom)
+            return (("no exception",), (True, want_line, all_lines[want_line - 1]))
+        except Boom:
+            tb = exceptions.RichTraceback()
+        recs = [r for r in tb.records if r[4] is not None]
+        if not recs:
+            return (("no template frame reported", [r[0] for r in tb.records][-3:]), (True, want_line, all_lines[want_line - 1]))
+        r = recs[-1]
+        same_file = r[4] == name or (os.path.exists(str(r[4])) and os.path.exists(name) and os.path.samefile(r[4], name))
+        return ((same_file, r[5], r[6]), (True, want_line, all_lines[want_line - 1]))
+    finally:
+        shutil.rmtree(base, ignore_errors=True)
